@@ -1,0 +1,88 @@
+//go:build verif
+
+package nathole
+
+import (
+	"sort"
+
+	"github.com/fatedier/frp/pkg/msg"
+)
+
+// Read-only exports for the verification harness (build tag `verif`); not compiled otherwise.
+
+// VerifGetRangePorts exposes getRangePorts.
+func VerifGetRangePorts(addrs []string, difference, maxNumber int) []msg.PortsRange {
+	return getRangePorts(addrs, difference, maxNumber)
+}
+
+// VerifBehaviorByModeAndIndex exposes getBehaviorByModeAndIndex.
+func VerifBehaviorByModeAndIndex(mode, index int) (RecommandBehavior, RecommandBehavior) {
+	return getBehaviorByModeAndIndex(mode, index)
+}
+
+// VerifScores lists (mode, index, score) of a record set in slice order.
+func (mhr *MakeHoleRecords) VerifScores() [][3]int {
+	mhr.mu.Lock()
+	defer mhr.mu.Unlock()
+	out := make([][3]int, 0, len(mhr.scores))
+	for _, s := range mhr.scores {
+		out = append(out, [3]int{s.Mode, s.Index, s.Score})
+	}
+	return out
+}
+
+// VerifScores lists the scores stored under an analysis key (nil, false if the key is unknown).
+func (a *Analyzer) VerifScores(key string) ([][3]int, bool) {
+	a.mu.Lock()
+	r, ok := a.records[key]
+	a.mu.Unlock()
+	if !ok {
+		return nil, false
+	}
+	return r.VerifScores(), true
+}
+
+// VerifRecordCount is the number of analysis keys held.
+func (a *Analyzer) VerifRecordCount() int {
+	a.mu.Lock()
+	defer a.mu.Unlock()
+	return len(a.records)
+}
+
+// VerifAnalyzer returns the controller's analyzer.
+func (c *Controller) VerifAnalyzer() *Analyzer { return c.analyzer }
+
+// VerifSessions lists the session ids currently stored, sorted.
+func (c *Controller) VerifSessions() []string {
+	c.mu.RLock()
+	defer c.mu.RUnlock()
+	out := make([]string, 0, len(c.sessions))
+	for sid := range c.sessions {
+		out = append(out, sid)
+	}
+	sort.Strings(out)
+	return out
+}
+
+// VerifSessionInfo returns what HandleReport would use for a sid.
+func (c *Controller) VerifSessionInfo(sid string) (key string, mode, index int, ok bool) {
+	c.mu.RLock()
+	defer c.mu.RUnlock()
+	s, ok := c.sessions[sid]
+	if !ok {
+		return "", 0, 0, false
+	}
+	return s.analysisKey, s.recommandMode, s.recommandIndex, true
+}
+
+// VerifClients lists the registered xtcp proxy names, sorted.
+func (c *Controller) VerifClients() []string {
+	c.mu.RLock()
+	defer c.mu.RUnlock()
+	out := make([]string, 0, len(c.clientCfgs))
+	for n := range c.clientCfgs {
+		out = append(out, n)
+	}
+	sort.Strings(out)
+	return out
+}
